@@ -250,13 +250,13 @@ PURE = {
     "math.floor": math.floor, "math.ceil": math.ceil, "math.isinf": math.isinf, "math.isnan": math.isnan, "math.isfinite": math.isfinite,
     "math.trunc": math.trunc, "math.copysign": math.copysign, "math.sqrt": math.sqrt, "math.fabs": math.fabs, "math.isclose": math.isclose,
     "math.log": math.log, "math.exp": math.exp, "statistics.mean": lambda xs: _guard(__import__("statistics").mean, list(xs)), "isclass": lambda x: isinstance(x, type), "inspect.isclass": lambda x: isinstance(x, type),
-    "dict.fromkeys": dict.fromkeys, "itertools.chain": itertools.chain, "itertools.chain.from_iterable": itertools.chain.from_iterable, "set.intersection": set.intersection, "set.union": set.union, "cast": lambda _t, v: v, "typing.cast": lambda _t, v: v, "re.compile": re.compile, "re.fullmatch": re.fullmatch, "re.match": re.match, "re.search": re.search, "callable": callable, "issubclass": issubclass, "dir": dir, "map": map, "filter": filter, "reversed": reversed, "iter": iter, "next": next, "dict": dict, "frozenset": frozenset, "getattr": getattr, "hasattr": hasattr, "id": id, "hex": hex,
+    "dict.fromkeys": dict.fromkeys, "itertools.chain": itertools.chain, "itertools.chain.from_iterable": itertools.chain.from_iterable, "set.intersection": set.intersection, "set.union": set.union, "cast": lambda _t, v: v, "typing.cast": lambda _t, v: v, "re.compile": re.compile, "re.split": re.split, "re.sub": re.sub, "re.fullmatch": re.fullmatch, "re.match": re.match, "re.search": re.search, "callable": callable, "issubclass": issubclass, "dir": dir, "map": map, "filter": filter, "reversed": reversed, "iter": iter, "next": next, "dict": dict, "frozenset": frozenset, "getattr": getattr, "hasattr": hasattr, "id": id, "hex": hex,
 }
 import builtins as _builtins  # noqa: E402
 
 CONSTS = {"NotImplemented": NotImplemented, "builtins": _builtins, "inf": math.inf, "math.inf": math.inf, "math.nan": math.nan, "math.pi": math.pi, "sys.float_info.min": sys.float_info.min,
           "sys.float_info.max": sys.float_info.max, "sys.float_info.epsilon": sys.float_info.epsilon, "sys.maxsize": sys.maxsize}
-STR_METHODS = {"isidentifier", "isdigit", "isalpha", "isalnum", "isupper", "islower", "title", "capitalize", "startswith", "endswith", "lstrip", "rstrip", "strip", "lower", "upper", "split", "rpartition", "partition", "replace", "join",
+STR_METHODS = {"splitlines", "expandtabs", "isspace", "zfill", "ljust", "rjust", "center", "swapcase", "casefold", "isidentifier", "isdigit", "isalpha", "isalnum", "isupper", "islower", "title", "capitalize", "startswith", "endswith", "lstrip", "rstrip", "strip", "lower", "upper", "split", "rpartition", "partition", "replace", "join",
                "removeprefix", "removesuffix", "decode", "encode", "isdigit", "format", "count", "find", "is_integer", "real", "imag", "hex", "bit_length",
                "conjugate", "as_integer_ratio", "get", "keys", "values", "items", "index", "copy", "union", "intersection", "issubset", "issuperset", "difference", "isdisjoint"}
 
@@ -613,6 +613,13 @@ class Interp:
                 new = Term(base.name, [], dict(base.fields))
                 new.fields.update(kwargs)
                 return new
+        if isinstance(e.func, ast.Attribute) and e.func.attr in ("search", "match", "fullmatch", "finditer", "findall", "sub", "split", "group", "groups", "start", "end", "span", "groupdict"):
+            try:
+                base = self.ev(e.func.value, env, mod)
+            except Undecided:
+                base = None
+            if isinstance(base, (re.Pattern, re.Match)):
+                return _guard(getattr(base, e.func.attr), *args, **kwargs)
         if isinstance(e.func, ast.Attribute) and e.func.attr in STR_METHODS:
             try:
                 base = self.ev(e.func.value, env, mod)
@@ -633,6 +640,10 @@ class Interp:
                 return fv(*args, **kwargs)
             if fv in (list, tuple, set, frozenset, dict, int, float, str, bool, bytes):
                 return _guard(fv, *args, **kwargs)  # a builtin type obtained as a value, e.g. type(x)(...)
+        if isinstance(e.func, ast.Name) and e.func.id == "cls" and isinstance(env.get("cls"), Obj) and getattr(env["cls"], "mro", None):
+            # inside a classmethod bound to a representative instance: cls(...) builds a new instance of its class
+            proto = env["cls"]
+            return self.instantiate(proto.mro[0][0].name, proto.mro, args, kwargs)
         if isinstance(e.func, ast.Name) and isinstance(env.get(e.func.id), ClassRef):
             fv = env[e.func.id]
             return self.instantiate(fv.name, fv.mro, args, kwargs)
@@ -882,6 +893,16 @@ class Interp:
         if isinstance(s, (ast.Pass, ast.Import, ast.ImportFrom, ast.Global, ast.Nonlocal)):
             return
         if isinstance(s, ast.With):
+            for item in s.items:
+                if item.optional_vars is None:
+                    continue  # context managers without a bound value are transparent to the checks
+                try:
+                    val = self.ev(item.context_expr, env, mod)
+                except Undecided:
+                    val = Token(f"<{norm(item.context_expr)[:40]}>")
+                if not isinstance(val, (Obj, Token, Term, Closure)) and hasattr(val, "__enter__"):
+                    val = _guard(val.__enter__)
+                self._bind(item.optional_vars, val, env)
             self.block(s.body, env, mod)
             return
         if isinstance(s, ast.Try):
